@@ -74,7 +74,7 @@ def case_strategy(draw, max_steps):
     unit = draw(st.sampled_from(UNITS))
     isdate = unit in ("years", "months", "weeks", "days") and draw(st.integers(0, 3)) == 0
     zone = draw(st.sampled_from(ZONES))
-    y = draw(st.one_of(st.integers(1950, 2050), st.integers(1950, 2050), st.integers(1950, 2050), st.sampled_from([2, 3, 4, 9995, 9996, 9997, 9998])))
+    y = draw(st.one_of(st.integers(1950, 2050), st.integers(1950, 2050), st.integers(1950, 2050), st.sampled_from([2, 3, 4, 9995, 9996, 9997, 9998]), st.sampled_from(S.EDGE_YEARS), st.integers(2, 9997)))
     m = draw(st.integers(1, 12))
     d = min(draw(st.sampled_from([1, 15, 28, 29, 30, 31, 31, 30, 29])), calendar.monthrange(y, m)[1])
     tr = T.transitions(zone) if zone else ()
@@ -167,9 +167,20 @@ class Range(Sub):
             req(key(got[0]) == key(s), "first value is not the start", got=str(got[0]))
         for a, b in zip(got, got[1:]):
             if inst(a) == inst(b) and z and not case["date"] and unit in ("years", "months", "weeks", "days") and \
-                    any(t * US == inst(a) and ob - oa >= 86400 for t, oa, ob in T.transitions(z)):
+                    any(ob - oa >= 86400 and t * US <= inst(a) < (t + ob - oa) * US for t, oa, ob in T.transitions(z)):
                 raise Known("K-C19-1", "a calendar step that lands on a wholly skipped day yields the day after it twice")
             req((inst(a) < inst(b)) if forward else (inst(a) > inst(b)), "sequence is not strictly monotone in the interval's direction", a=str(a), b=str(b))
+        # ... and the sequence does not stop early: by the model, the step after the last yielded value is beyond the end (or not representable)
+        if len(got) <= limit:
+            try:
+                nxt = model_value(s, unit, dirn * len(got) * n, z if not case["date"] else None, case["date"])
+            except (OverflowError, ValueError):
+                nxt = None
+            if nxt is not None:
+                lim_lo, lim_hi = (D.date(1, 1, 1).toordinal(), D.date(9999, 12, 31).toordinal()) if case["date"] else (T.MIN_US, T.MAX_US)
+                if lim_lo <= nxt <= lim_hi:
+                    req(nxt > inst(e) if forward else nxt < inst(e), "range() stops although the next step is still inside the interval", produced=len(got), start=str(s), end=str(e),
+                        unit=unit, n=n, last=str(got[-1]) if got else None)
         # closed-form model for month/year stepping of naive/Date values: no clamping drift
         if unit in ("years", "months") and (case["date"] or not z) and got:
             j = len(got) - 1
